@@ -276,10 +276,11 @@ func determinismRule(c *Ctx, r *Report, rule string, roots []*ssa.Function, labe
 
 func checkC04(c *Ctx, r *Report, tier string) {
 	round5(c, r, "C04")
+	round6(c, r, "C04")
 	r.Rule("C04.R1", "the apply tree is a function of the log: no randomness / time / fresh-uuid / environment source is reachable from a partition apply root; the level of every insert in that tree comes from the log entry or from the replaced vertex, and every proposer sets it", 5)
 	r.Rule("C04.R2", "single-threaded apply: calls through the registered process / restore callbacks are plain calls made by the Ready loop, by Start before the loop, or by another apply root", 4)
 	r.Rule("C04.R3", "what apply mutates, the snapshot captures and restore resets (partition consumer; frozen table of replicated fields)", 6)
-	r.Rule("C04.R4", "writer/reader grammar agreement for every stream pair (same fixed widths, length prefixes, loop nesting, optional header, early exits)", 5)
+	r.Rule("C04.R4", "writer/reader grammar agreement for every stream pair (same fixed widths, length prefixes, loop nesting, optional header, early exits)", 4)
 	ro := discoverRoles(c)
 	// partition apply roots
 	var proots []*ssa.Function
@@ -367,41 +368,26 @@ func checkC04(c *Ctx, r *Report, tier string) {
 					where = "an apply root (runs on the Ready loop's goroutine)"
 				}
 			}
-			// a helper of the loop: every call site of f is a plain call inside a Ready loop
-			if where == "" && f.Parent() == nil {
-				sites, inLoop := 0, 0
-				for _, g := range c.ModFuncs {
-					if !c.isProd(g) {
-						continue
-					}
-					eachInstr(g, func(j ssa.Instruction) {
-						cc := asCall(j)
-						if cc == nil || cc.StaticCallee() != f {
-							return
-						}
-						sites++
-						if _, isPlain := j.(*ssa.Call); isPlain {
-							for _, l := range ro.readyLoops {
-								if l == g {
-									inLoop++
-								}
-							}
-						}
-					})
-				}
-				if sites > 0 && sites == inLoop {
-					where = "a helper that only the Ready loop calls, synchronously"
-				}
+			// a helper of the loop: every call site of f is a plain call inside a Ready loop or inside another such helper
+			if where == "" && f.Parent() == nil && loopHelpers(c, ro)[f] {
+				where = "a helper that only the Ready loop calls, synchronously"
 			}
-			// Start: spawns the loop afterwards
+			// Start: spawns the loop afterwards (itself, or through a helper that only spawns)
 			eachInstr(f, func(j ssa.Instruction) {
+				spawns := false
 				if g, ok := j.(*ssa.Go); ok {
 					for _, l := range ro.readyLoops {
 						if g.Call.StaticCallee() == l {
-							if _, after := reachesAvoiding(f, j, func(z ssa.Instruction) bool { return z == i }, nil); !after {
-								where = "Start, before the loop is spawned"
-							}
+							spawns = true
 						}
+					}
+				}
+				if cl, ok := j.(*ssa.Call); ok && loopSpawners(c, ro)[cl.Call.StaticCallee()] {
+					spawns = true
+				}
+				if spawns {
+					if _, after := reachesAvoiding(f, j, func(z ssa.Instruction) bool { return z == i }, nil); !after {
+						where = "Start, before the loop is spawned"
 					}
 				}
 			})
@@ -413,7 +399,7 @@ func checkC04(c *Ctx, r *Report, tier string) {
 	grammarRule(c, r, "C04.R4")
 	r.Rule("C04.R5", "the snapshot callback serialises the current state on every call: the bytes it returns never come from a field (cache) or a parameter", 1)
 	snapshotIsFresh(c, r, "C04.R5", "partition")
-	r.Rule("C04.R6", "replay equals restart: the partition apply tree spawns no goroutine; the restore callback always runs the state reader; log compaction keeps the snapshot's anchor entry so the first entry after a snapshot is replayed; each batch item is processed completely before the next", 5)
+	r.Rule("C04.R6", "replay equals restart: the partition apply tree spawns no goroutine; the restore callback always runs the state reader; log compaction keeps the snapshot's anchor entry so the first entry after a snapshot is replayed; each batch item is processed completely before the next", 4)
 	noGoroutinesInApply(c, r, "C04.R6", "partition")
 	restoreCallbackDelegates(c, r, "C04.R6", "partition", "Hnsw")
 	walCompactionKeepsAnchor(c, r, "C04.R6")
@@ -479,7 +465,8 @@ func levelFromLog(c *Ctx, f *ssa.Function, v ssa.Value, reach map[*ssa.Function]
 
 func checkC08(c *Ctx, r *Report, tier string) {
 	round5(c, r, "C08")
-	r.Rule("C08.R1", "writer/reader grammar agreement for every stream pair", 5)
+	round6(c, r, "C08")
+	r.Rule("C08.R1", "writer/reader grammar agreement for every stream pair", 4)
 	r.Rule("C08.R2", "full reads: no direct Read on an io.Reader whose byte count is discarded (io.ReadFull / binary.Read are exact)", 1)
 	r.Rule("C08.R3", "length fields cannot truncate: a len(…) narrowed to uint8/uint16 that is written to the stream needs a dominating bound check (uint32 counts are bounded by memory)", 3)
 	r.Rule("C08.R4", "tombstone count/body agreement: the loop that counts a vertex's links and the loop that writes them filter on the tombstone with the same (live) polarity", 1)
@@ -565,15 +552,43 @@ func checkC08(c *Ctx, r *Report, tier string) {
 			case types.Uint8, types.Uint16:
 				// dominating upper-bound test on the same len
 				guard := false
+				wideBound := ""
 				for _, ifi := range allIfs(f) {
 					bo, ok := ifi.Cond.(*ssa.BinOp)
 					if !ok {
 						continue
 					}
-					for _, side := range []ssa.Value{bo.X, bo.Y} {
+					for si, side := range []ssa.Value{bo.X, bo.Y} {
 						if lc, ok := side.(*ssa.Call); ok && callID(&lc.Call).is("builtin", "", "len") && lc.Call.Args[0] == src.Call.Args[0] {
-							if guardedBy(cv.Block(), ifi, true) || guardedBy(cv.Block(), ifi, false) {
+							onTrue, onFalse := guardedBy(cv.Block(), ifi, true), guardedBy(cv.Block(), ifi, false)
+							if onTrue || onFalse {
 								guard = true
+								// a constant bound must fit the width the length is narrowed to
+								other := bo.Y
+								op := bo.Op
+								if si == 1 {
+									other = bo.X
+									op = flipCmp(op)
+								}
+								if onFalse && !onTrue {
+									op = negOp(op)
+								}
+								if cst, isK := constInt(other); isK {
+									limit := int64(255)
+									if b.Kind() == types.Uint16 {
+										limit = 65535
+									}
+									switch op {
+									case token.LEQ:
+										if cst > limit {
+											wideBound = fmt.Sprintf("the bound lets a length of %d through, %s holds at most %d", cst, b.Name(), limit)
+										}
+									case token.LSS:
+										if cst-1 > limit {
+											wideBound = fmt.Sprintf("the bound lets a length of %d through, %s holds at most %d", cst-1, b.Name(), limit)
+										}
+									}
+								}
 							}
 						}
 					}
@@ -598,16 +613,40 @@ func checkC08(c *Ctx, r *Report, tier string) {
 								if !isB {
 									return
 								}
-								for _, side := range []ssa.Value{bo.X, bo.Y} {
+								for si, side := range []ssa.Value{bo.X, bo.Y} {
 									if lc, ok := side.(*ssa.Call); ok && callID(&lc.Call).is("builtin", "", "len") && lc.Call.Args[0] == ssa.Value(g.Params[ai]) {
 										guard = true
+										other := bo.Y
+										if si == 1 {
+											other = bo.X
+										}
+										if cst, isK := constInt(other); isK {
+											limit := int64(255)
+											if b.Kind() == types.Uint16 {
+												limit = 65535
+											}
+											// `len <= C` / `len > C` bound by C, `len < C` / `len >= C` by C-1, whichever way the verdict is used
+											eff := cst
+											if bo.Op == token.LSS || bo.Op == token.GEQ {
+												if si == 0 {
+													eff = cst - 1
+												}
+											} else if si == 1 && (bo.Op == token.GTR || bo.Op == token.LEQ) {
+												eff = cst - 1
+											}
+											if eff > limit {
+												wideBound = fmt.Sprintf("the predicate %s lets a length of %d through, %s holds at most %d", g.Name(), eff, b.Name(), limit)
+											}
+										}
 									}
 								}
 							})
 						}
 					}
 				}
-				if guard {
+				if guard && wideBound != "" {
+					r.Bad("C08.R3", fnName(f), cons, c.Pos(cv.Pos()), "the bound test in front of the narrowing is wider than the field: "+wideBound+" — the prefix wraps to a smaller number and the reader desynchronises")
+				} else if guard {
 					r.OK("C08.R3", fnName(f), cons, c.Pos(cv.Pos()), "narrowing is dominated by a bound test on the same length")
 				} else {
 					r.Bad("C08.R3", fnName(f), cons, c.Pos(cv.Pos()), fmt.Sprintf("len(…) is narrowed to %s and written as a length prefix without a bound check: a longer value is written in full behind a truncated prefix and the reader desynchronises", b.Name()))
@@ -675,4 +714,77 @@ func checkC08(c *Ctx, r *Report, tier string) {
 	r.Rule("C08.R7", "the bytes of a snapshot stay what they were when it was taken, and only states the format can express are reachable: snapshot bytes come from a buffer local to the call; every item of a value-carrying batch passes the dimension and metadata guard (borrowed from C11.R4)", 3)
 	snapshotIsFresh(c, r, "C08.R7", "partition")
 	borrow(c, r, "C11", "C11.R4", "C08.R7", "")
+}
+
+// loopHelpers: functions whose every call site is a plain (not go / defer) call inside a Ready loop or inside another loop
+// helper — they run on the loop's goroutine, one at a time.
+func loopHelpers(c *Ctx, ro *roles) map[*ssa.Function]bool {
+	h := map[*ssa.Function]bool{}
+	for _, l := range ro.readyLoops {
+		h[l] = true
+	}
+	for changed := true; changed; {
+		changed = false
+		for _, f := range c.ModFuncs {
+			if h[f] || !c.isProd(f) || f.Parent() != nil {
+				continue
+			}
+			sites, ok := 0, true
+			for _, g := range c.ModFuncs {
+				if !c.isProd(g) {
+					continue
+				}
+				eachInstr(g, func(j ssa.Instruction) {
+					cc := asCall(j)
+					if cc == nil || cc.StaticCallee() != f {
+						return
+					}
+					sites++
+					if _, plain := j.(*ssa.Call); !plain || !h[rootFn(g)] || g.Parent() != nil {
+						ok = false
+					}
+				})
+			}
+			if sites > 0 && ok {
+				h[f] = true
+				changed = true
+			}
+		}
+	}
+	for _, l := range ro.readyLoops {
+		delete(h, l)
+	}
+	return h
+}
+
+// loopSpawners: functions that contain `go <Ready loop>` and are not themselves the start function with the restore call —
+// small helpers such as spawnLoop().
+func loopSpawners(c *Ctx, ro *roles) map[*ssa.Function]bool {
+	s := map[*ssa.Function]bool{}
+	for _, f := range c.ModFuncs {
+		if !c.isProd(f) || f.Parent() != nil {
+			continue
+		}
+		hasRestore := false
+		eachInstr(f, func(i ssa.Instruction) {
+			if cc := plainCall(i); cc != nil && cc.StaticCallee() == nil && !cc.IsInvoke() {
+				if fld := fieldOfValue(cc.Value); fld != nil && typeName(fld.Type()) == "ProcessFn" {
+					hasRestore = true
+				}
+			}
+		})
+		if hasRestore {
+			continue // the start function itself
+		}
+		eachInstr(f, func(i ssa.Instruction) {
+			if g, ok := i.(*ssa.Go); ok {
+				for _, l := range ro.readyLoops {
+					if g.Call.StaticCallee() == l {
+						s[f] = true
+					}
+				}
+			}
+		})
+	}
+	return s
 }
